@@ -99,27 +99,44 @@ Proof.
   - cbn [flags_hist seen_after observe o_run o_exh is_running]. repeat split; auto.
 Qed.
 
-Lemma ops_flags p : forall ops s m, I s ->
-  let '(_, _, ls) := run_ops p s m ops in flags_hist fa (is_exhausted s) ls.
+Lemma seen_after_app : forall l1 seen l2, seen_after fa seen (l1 ++ l2) = seen_after fa (seen_after fa seen l1) l2.
+Proof. induction l1 as [|l l1 IH]; intros seen l2; [reflexivity|]. cbn [app seen_after]. destruct l as [o ob|e ob]; [destruct o|]; apply IH. Qed.
+Lemma ops_flags_full p : forall ops s m, I s ->
+  let '(s', _, ls) := run_ops p s m ops in flags_hist fa (is_exhausted s) ls /\ is_exhausted s' = seen_after fa (is_exhausted s) ls.
 Proof.
-  induction ops as [|op ops IH]; intros s m HI; cbn [run_ops]; [exact Logic.I|].
+  induction ops as [|op ops IH]; intros s m HI; cbn [run_ops]; [split; [exact Logic.I|reflexivity]|].
   destruct op as [|kk|kk limit].
   - destruct (Hnext s HI) as (HI' & Hst & Hout).
     destruct (Sched.next s) as [s' o]. cbn [fst snd] in *.
     specialize (IH s' (match o with Yield a => mon_step p s' a m | _ => m end) HI').
-    destruct (run_ops p s' _ ops) as [[s2 m2] ls].
-    destruct o as [a| |e]; cbn [flags_hist observe o_run o_exh is_running].
+    destruct (run_ops p s' _ ops) as [[s2 m2] ls]. destruct IH as [IH1 IH2].
+    destruct o as [a| |e]; cbn [flags_hist seen_after observe o_run o_exh is_running].
     + destruct Hout as [He He']. rewrite He' in *. repeat split; auto.
-    + rewrite Hout in IH. repeat split; auto.
-    + rewrite Hout in IH. repeat split; auto.
+    + rewrite Hout in *. repeat split; auto.
+    + rewrite Hout in *. repeat split; auto.
   - destruct (Hfin kk s HI) as (HI' & He).
     destruct (Sched.finalize kk s) as [s' e]. cbn [fst] in *.
-    specialize (IH s' m HI'). destruct (run_ops p s' m ops) as [[s2 m2] ls].
-    cbn [flags_hist observe o_exh]. rewrite He in *. split; auto.
+    specialize (IH s' m HI'). destruct (run_ops p s' m ops) as [[s2 m2] ls]. destruct IH as [IH1 IH2].
+    cbn [flags_hist seen_after observe o_exh]. rewrite He in *. repeat split; auto.
   - pose proof (loop_flags p limit kk s m HI) as HL.
     destruct (run_loop p limit kk s m) as [[s' m'] l1]. destruct HL as (HI' & H1 & H2).
-    specialize (IH s' m' HI'). destruct (run_ops p s' m' ops) as [[s2 m2] ls].
-    apply flags_hist_app; [exact H1|]. rewrite <- H2. exact IH.
+    specialize (IH s' m' HI'). destruct (run_ops p s' m' ops) as [[s2 m2] ls]. destruct IH as [IH1 IH2].
+    split; [apply flags_hist_app; [exact H1|]; rewrite <- H2; exact IH1|].
+    rewrite seen_after_app, <- H2. exact IH2.
+Qed.
+Lemma ops_flags p ops s m : I s -> let '(_, _, ls) := run_ops p s m ops in flags_hist fa (is_exhausted s) ls.
+Proof. intros HI. pose proof (ops_flags_full p ops s m HI) as H. destruct (run_ops p s m ops) as [[s' m'] ls]. exact (proj1 H). Qed.
+Lemma seen_after_witness : forall ls, seen_after fa false ls = true -> exists a ob, In (LNext (Yield a) ob) ls /\ fa a = true.
+Proof.
+  induction ls as [|l ls IH]; cbn [seen_after]; [discriminate|].
+  assert (Hgen : forall seen ls', seen_after fa seen ls' = true -> seen = true \/ exists a ob, In (LNext (Yield a) ob) ls' /\ fa a = true).
+  { intros seen ls'. revert seen. induction ls' as [|l' ls' IH']; intros seen H; cbn [seen_after] in H; [left; exact H|].
+    destruct l' as [o ob|e ob]; [destruct o as [a| |e]|].
+    - destruct (IH' _ H) as [E|(a' & ob' & Hin & Hfa)]; [right; exists a, ob; split; [left; reflexivity|exact E]|right; exists a', ob'; split; [right; exact Hin|exact Hfa]].
+    - destruct (IH' _ H) as [E|(a' & ob' & Hin & Hfa)]; [left; exact E|right; exists a', ob'; split; [right; exact Hin|exact Hfa]].
+    - destruct (IH' _ H) as [E|(a' & ob' & Hin & Hfa)]; [left; exact E|right; exists a', ob'; split; [right; exact Hin|exact Hfa]].
+    - destruct (IH' _ H) as [E|(a' & ob' & Hin & Hfa)]; [left; exact E|right; exists a', ob'; split; [right; exact Hin|exact Hfa]]. }
+  intros H. destruct (Hgen false (l :: ls) H) as [E|E]; [discriminate|exact E].
 Qed.
 
 Lemma case_flags pr p ops o0 m ls : (forall s, Sched.construct pr = Ok s -> I s /\ is_exhausted s = false /\ started s = false) ->
